@@ -19,6 +19,7 @@ pub mod pipeline;
 pub mod frontend;
 pub mod backend;
 pub mod interop;
+pub mod build;
 pub mod cbor;
 pub mod ledger;
 
@@ -78,6 +79,7 @@ fn dispatch(case: &Value) -> Value {
         "frontend" => frontend::run(case),
         "backend" => backend::run(case),
         "interop" => interop::run(case),
+        "build" => build::run(case),
         "ping" => json!({"pong": true}),
         other => json!({"tool_error": format!("unknown cmd {other}")}),
     }
